@@ -45,14 +45,14 @@ Obs == [m \in Mailbox |->
 Dev(key) == /\ key \in AllowedKeys
             /\ PrintT(<<"DEVIATION", key, l>>)
 
-TraceInit == l = 1 /\ kind = "" /\ vanished = FALSE /\ RInit(0)
+TraceInit == l = 1 /\ kind = [store |-> "", sleep |-> 0] /\ vanished = FALSE /\ RInit(0)
 
 TrReset ==
     /\ Is("reset")
     /\ store' = Empty /\ ub' = Empty /\ pre' = Empty
     /\ mustGo' = [m \in Mailbox |-> {}] /\ must' = {} /\ visited' = {}
     /\ pc' = "idle" /\ loop' = FALSE /\ cancelled' = FALSE /\ disturbed' = FALSE /\ late' = 0
-    /\ period' = Ev.period /\ kind' = Ev.store /\ vanished' = FALSE
+    /\ period' = Ev.period /\ kind' = [store |-> Ev.store, sleep |-> Ev.sleep_ms] /\ vanished' = FALSE
     /\ SnapWF /\ Obs = Empty
     /\ Mark
 
@@ -100,7 +100,7 @@ TrCancel ==
 (* reached.  Nothing else is waived: only older messages may be missing.     *)
 DevWalkAborted ==
     /\ pc = "scanning" /\ ~cancelled
-    /\ kind = "file" /\ vanished /\ Ev.rc = "enoent"
+    /\ kind.store = "file" /\ vanished /\ Ev.rc = "enoent"
     /\ OnlyExpiredMissing(Obs, store) /\ ~AllOlderGone(Obs)
     /\ Dev("C12.file.scan-aborts-when-directory-vanishes")
     /\ store' = Obs /\ pc' = "aborted"
@@ -134,6 +134,11 @@ TrJoin ==
     /\ SnapWF /\ Obs = store
     /\ UNCHANGED <<kind, vanished>>
     /\ Mark
+
+(* "stops promptly": when the scanner sleeps between mailboxes (retention sleep > 0) a shutdown   *)
+(* request is seen at the first mailbox boundary, so at most the mailbox at hand is finished;    *)
+(* with a sleep of 0 the scan's select may legitimately take another turn, which is not judged   *)
+LateBoundWhenSleeping == kind.sleep > 0 => late <= 1
 
 TraceNext == TrReset \/ TrEnv \/ TrScanStart \/ TrVisit \/ TrCancel \/ TrScanEnd \/ TrStart \/ TrJoin
 
